@@ -473,17 +473,100 @@ pub fn unify_under_context_sweep(tier: Tier) -> Sweep {
     )
 }
 
+// A hole that was solved in an outer scope, looked at from further in: `Unifier(cell := X, shift k)` under
+// a context of up to four entries (type parameters, an integer parameter, the definitions t = int and
+// u = bool) stands for X seen through k more entries. For every context, every k, and every X that lives
+// in the first (length - k) entries (a variable of that prefix, int, bool, a function type over them):
+// normalising the solved hole gives what normalising the shifted X gives, the two unify, and the context
+// is as before. The entries the solution is shifted across are where a lookup done in the wrong scope
+// lands on a neighbour.
+fn solved_hole_sweep() -> Sweep {
+    let entry = |k: usize, pos: usize| -> Block {
+        let n = |s: &str| -> Rc<str> { Rc::from(format!("{s}{pos}")) };
+        match k {
+            0 => Block::Param(n("a"), false, rc(M::Type)),
+            1 => Block::Group(vec![(n("t"), rc(M::Type), rc(M::Int))]),
+            2 => Block::Group(vec![(n("u"), rc(M::Type), rc(M::Bool))]),
+            _ => Block::Param(n("n"), false, rc(M::Int)),
+        }
+    };
+    let mut contexts: Vec<Vec<usize>> = vec![];
+    for len in 1..=4usize {
+        for code in 0..4usize.pow(len as u32) {
+            contexts.push((0..len).map(|i| (code / 4usize.pow(i as u32)) % 4).collect());
+        }
+    }
+    let contexts = Rc::new(contexts);
+    let c2 = contexts.clone();
+    Sweep::new(
+        "solved holes seen from deeper scopes under contexts of parameters and definitions",
+        contexts.len() as u64,
+        move |idx| {
+            let ctx = &contexts[idx as usize];
+            let blocks: Vec<Block> = ctx.iter().enumerate().map(|(i, k)| entry(*k, i)).collect();
+            let len = ctx.len();
+            for k in 0..=len {
+                let home = len - k;
+                let mut pool: Vec<M> = (0..home).map(|i| M::Var(Rc::from(format!("v{}", home - 1 - i)), i)).collect();
+                pool.extend([M::Int, M::Bool]);
+                let atoms = pool.clone();
+                for a in atoms.iter().take(3) {
+                    for b in atoms.iter().take(3) {
+                        pool.push(M::Pi(Rc::from("x"), false, rc(a.clone()), rc(crate::model::mterm::shift(b, 0, 1).unwrap())));
+                    }
+                }
+                for x in &pool {
+                    count!("evaluations");
+                    count!("solved_hole_problems");
+                    let (_, mut dc) = materialise(&blocks);
+                    let base = dc.len();
+                    let mut cells: std::collections::HashMap<usize, Rc<std::cell::RefCell<Option<crate::term::Term<'static>>>>> = Default::default();
+                    let hole = to_real(&M::Hole(0, k), &mut cells);
+                    *cells[&0].borrow_mut() = Some(to_real(x, &mut Default::default()));
+                    let shifted = crate::model::mterm::shift(x, 0, k as isize).unwrap();
+                    let plain = to_real(&shifted, &mut Default::default());
+                    let d = || format!("?0^{k} with ?0 := {} under the context {}", x.show(), wrap_term(&blocks, &M::Lit(0.into())).show());
+                    let r = bind::guard(|| {
+                        let a = crate::normalizer::normalize_weak_head(&hole, &mut dc);
+                        let b = crate::normalizer::normalize_weak_head(&plain, &mut dc);
+                        let u = crate::unifier::unify(&hole, &plain, &mut dc);
+                        (mirror(&a), mirror(&b), u)
+                    });
+                    if dc.len() != base {
+                        violation("contexts-not-restored-after-unify", &d(), &format!("{base} entries"), &format!("{}", dc.len()));
+                        continue;
+                    }
+                    match r {
+                        Err(m) => violation("panic", &d(), "a normal form", &m),
+                        Ok((a, b, u)) => {
+                            if !a.alpha_eq(&b) {
+                                violation("normal-form-of-solved-hole-differs", &d(), &format!("the normal form of the solution seen from {k} entries further in: {}", b.show()), &a.show());
+                            } else if !u {
+                                violation("unify-differs-from-closed-program", &d(), "a solved hole unifies with its solution seen from the same scope", "false");
+                            } else {
+                                count!("solved_hole_ok");
+                                count!("nontrivial");
+                            }
+                        }
+                    }
+                }
+            }
+        },
+        move |idx| format!("context kinds {:?}", c2[idx as usize]),
+    )
+}
+
 impl Prop for C18 {
     fn id(&self) -> &'static str {
         "C18"
     }
     fn sweeps(&self, tier: Tier) -> Vec<Sweep> {
-        vec![peel_sweep(tier), computed_annotation_sweep()]
+        vec![peel_sweep(tier), computed_annotation_sweep(), solved_hole_sweep()]
     }
     fn evidence(&self, tier: Tier) -> EvidenceSpec {
         EvidenceSpec {
             level: "exploration",
-            rule: "every closed type-directed program that starts with a lambda or a definition group is peeled one, two and three binders deep (contexts mixing plain parameters and groups of one and two definitions, i.e. entries with offsets 0, 1, 2 looked up from depths 0..5); the context vectors are built exactly as the checker pushes them and the real type_check, normalize_weak_head and unify are called on the open body; every fourth program additionally in every single-point perturbation (ill-typed open terms, faults inside nested scopes); plus the computed-annotation family (252 programs: a prefix group with universe aliases, universe-valued functions or aliases of aliases, one to three binders annotated with names of the prefix, six bodies) peeled one to four binders deep. Oracle: same verdict as the closed program; closed type convertible (reference) with the open type bound the same way; the weak-head normal form under the context convertible with the term; unify(t, nf t) true under the context and closed; after every call, accepted or rejected, both context vectors pointer-identical with the same offsets. evaluations = (context, open term) pairs; non-trivial = those whose verdict and type were compared The family also holds programs whose parameters have an implicit function type, met by parameters over implicit and over explicit function types (the type a context entry carries is the one that was written).".to_owned(),
+            rule: "every closed type-directed program that starts with a lambda or a definition group is peeled one, two and three binders deep (contexts mixing plain parameters and groups of one and two definitions, i.e. entries with offsets 0, 1, 2 looked up from depths 0..5); the context vectors are built exactly as the checker pushes them and the real type_check, normalize_weak_head and unify are called on the open body; every fourth program additionally in every single-point perturbation (ill-typed open terms, faults inside nested scopes); plus the computed-annotation family (252 programs: a prefix group with universe aliases, universe-valued functions or aliases of aliases, one to three binders annotated with names of the prefix, six bodies) peeled one to four binders deep. Oracle: same verdict as the closed program; closed type convertible (reference) with the open type bound the same way; the weak-head normal form under the context convertible with the term; unify(t, nf t) true under the context and closed; after every call, accepted or rejected, both context vectors pointer-identical with the same offsets. evaluations = (context, open term) pairs; non-trivial = those whose verdict and type were compared The family also holds programs whose parameters have an implicit function type, met by parameters over implicit and over explicit function types (the type a context entry carries is the one that was written). Solved holes seen from deeper scopes: under every context of one to four entries (type parameters, an integer parameter, the definitions t = int and u = bool), for every shift k and every solution X living in the first (length - k) entries, normalising Unifier(cell := X, shift k) gives what normalising X shifted by k gives, and the two unify.".to_owned(),
             assumptions: vec!["reference conversion with fuel; contexts come from peeling well-typed programs, so they are well formed".to_owned()],
             evaluations: "evaluations",
             nontrivial: "nontrivial",
